@@ -92,7 +92,10 @@ Proof. reflexivity. Qed.
 Lemma b_swap_exchanges_all : swap_exchanges_all = true.
 Proof. reflexivity. Qed.
 
-Global Opaque move_ctor_swaps move_xctor_assigns move_assign_swaps swap_exchanges_all msg_reserve_clears pfi_zero_cond pfi_zero_ret reserve_skip_cond reserve_new_capacity eb_grow_cond eb_grow_arg eb_reuse_cond pfi_reserve_arg
+Lemma b_foreign_assign_len : foreign_assign_len = 1%Z.
+Proof. reflexivity. Qed.
+
+Global Opaque foreign_assign_len move_ctor_swaps move_xctor_assigns move_assign_swaps swap_exchanges_all msg_reserve_clears pfi_zero_cond pfi_zero_ret reserve_skip_cond reserve_new_capacity eb_grow_cond eb_grow_arg eb_reuse_cond pfi_reserve_arg
   pfi_move_end pfi_recon_end pfi_loop1_start pfi_loop2_start pfi_construct_src pfi_assign_src pfi_new_size
   ins_fill_end insr_fill_end emplace_reuse_cond erase_new_size_delta resize_grow_cond resizev_grow_cond
   resize_recon_end resizev_recon_end clear_new_size meta_ctor_csize meta_ctor_capacity meta_update_capacity
